@@ -300,6 +300,30 @@ theorem specWrite_ok {σ : Schema} {s s' : St} {id : Bytes} {e : EntA} (ic : Boo
   have hlk : s'.as.lookup id = some e := by rw [has, Map.lookup_insert]; simp only [if_true]
   rw [findSome_none _ _ (specCheck_none ic old hI' hlk)]
 
+theorem spec_agrees_deleteA {σ : Schema} {s s' : St} {id : Bytes} (hI : Inv σ s)
+    (h : apply σ s (.deleteA id) = .ok s') :
+    ∃ ss', specApply σ (absSt s) (.deleteA id) = .ok ss' ∧ TEq ss'.as s'.as ∧ TEq ss'.bs s'.bs := by
+  obtain ⟨hbs, hsub, hiff⟩ := deleteA_exact σ s s' id hI h
+  have hc : s.as.contains id = true := (deleteA_succ_ok (n := s.as.length) h).1
+  refine ⟨{ absSt s with as := removeAll s.as (closure s.as [id]) }, ?_, ?_, fun k => by simp [absSt, hbs]⟩
+  · simp only [specApply, absSt, hc, if_true]
+  · intro k
+    simp only [lookup_removeAll]
+    have hmc : k ∈ closure s.as [id] ↔ (k = id ∨ Reach s.as id k) := by
+      rw [mem_closure]; simp
+    by_cases hk : k = id ∨ Reach s.as id k
+    · rw [if_pos (hmc.2 hk)]; exact ((hiff k).2 (Or.inr hk)).symm
+    · rw [if_neg (fun h => hk (hmc.1 h))]
+      cases hs : s.as.lookup k with
+      | none => exact ((hiff k).2 (Or.inl hs)).symm
+      | some e =>
+        cases hs' : s'.as.lookup k with
+        | none =>
+          rcases (hiff k).1 hs' with h1 | h1
+          · rw [hs] at h1; cases h1
+          · exact absurd h1 hk
+        | some e' => have := hsub k e' hs'; rw [hs] at this; exact this
+
 /-- **refinement on success**: from a state satisfying the invariant, whenever the model's operation
     succeeds the spec's operation succeeds too and yields the same entity tables (same `lookup`s) -/
 theorem spec_agrees_on_success {σ : Schema} {s s' : St} (op : Op) (hI : Inv σ s) (h : apply σ s op = .ok s') :
@@ -344,27 +368,29 @@ theorem spec_agrees_on_success {σ : Schema} {s s' : St} (op : Op) (hI : Inv σ 
       have : (absSt s).as.lookup id = some cur := hcur
       rw [this]
       exact specWrite_ok false _ hI' has hbs
-  | deleteA id =>
-    obtain ⟨hbs, hsub, hiff⟩ := deleteA_exact σ s s' id hI h
-    have hc : s.as.contains id = true := (deleteA_succ_ok (n := s.as.length) h).1
-    refine ⟨{ absSt s with as := removeAll s.as (closure s.as [id]) }, ?_, ?_, fun k => by simp [absSt, hbs]⟩
-    · simp only [specApply, absSt, hc, if_true]
-    · intro k
-      simp only [lookup_removeAll]
-      have hmc : k ∈ closure s.as [id] ↔ (k = id ∨ Reach s.as id k) := by
-        rw [mem_closure]; simp
-      by_cases hk : k = id ∨ Reach s.as id k
-      · rw [if_pos (hmc.2 hk)]; exact ((hiff k).2 (Or.inr hk)).symm
-      · rw [if_neg (fun h => hk (hmc.1 h))]
-        cases hs : s.as.lookup k with
-        | none => exact ((hiff k).2 (Or.inl hs)).symm
-        | some e =>
-          cases hs' : s'.as.lookup k with
-          | none =>
-            rcases (hiff k).1 hs' with h1 | h1
-            · rw [hs] at h1; cases h1
-            · exact absurd h1 hk
-          | some e' => have := hsub k e' hs'; rw [hs] at this; exact this
+  | deleteA id => exact spec_agrees_deleteA hI h
+  | deleteC id => exact spec_agrees_deleteA (id := id) hI h
+  | createC id e tag =>
+    obtain ⟨hI', has, hbs, hid, hnoext⟩ := createC_inv hI h
+    refine ⟨absSt s', ?_, fun _ => rfl, fun _ => rfl⟩
+    simp only [specApply]
+    have : ¬ (id = [] ∨ hasChild (absSt s).as id = true) := by
+      rintro (h1 | h1)
+      · exact hid h1
+      · simp only [hasChild, absSt] at h1
+        cases hl : s.as.lookup id with
+        | none => simp [hl] at h1
+        | some cur => simp [hl, hnoext cur hl] at h1
+    rw [if_neg this]
+    exact specWrite_ok true {} hI' has hbs
+  | updateC id e tag mo mb md mt =>
+    obtain ⟨hI', hbs, hid, cur, curTag, hcur, hx, has⟩ := updateC_inv hI h
+    refine ⟨absSt s', ?_, fun _ => rfl, fun _ => rfl⟩
+    simp only [specApply, if_neg hid]
+    have : (absSt s).as.lookup id = some cur := hcur
+    rw [this]
+    simp only [hx]
+    exact specWrite_ok false _ hI' has hbs
   | deleteB b =>
     obtain ⟨hbs, hsub, hiff⟩ := deleteB_exact σ s s' b hI h
     obtain ⟨hb, _⟩ := deleteB_succ_ok hI h
